@@ -64,6 +64,15 @@ Refused(h) == UnityNote(h) < 0 \/ FracLimbs(h)[1] >= 65536
 
 Chunk(h) == [period |-> Period(h), note |-> UnityNote(h), fhi |-> FracLimbs(h)[1], flo |-> FracLimbs(h)[2], loops |-> Loops(h)]
 
+\* --- which files carry the chunk, and merged pairs ----------------------------
+\* generalized/wav.py: the chunk is written when the sample has a root key, a tuning or a loop: AKAI and Roland samples
+\* always have a root key, a CDDA track has none of the three
+HasSmpl(kind) == kind # "cdda"
+\* generalized/sample.py combine_stereo: the merged sample is a field-by-field copy of the LEFT half with the right half's
+\* stream appended - whatever the right half's header says about key, tuning and loops is dropped
+PairChunk(left, right) == Chunk(left)
+PairRefused(left, right) == Refused(left)
+
 \* --- judging one observation -------------------------------------------
 \* obs = [refused, period, note, fhi, flo, loops : Seq([cue,type,start,end,frac,cnt])]
 Failed(h, obs) ==
@@ -81,9 +90,51 @@ Failed(h, obs) ==
   \cup (IF Len(obs.loops) = Len(c.loops) /\ \A i \in 1..Len(c.loops) : obs.loops[i].cnt \in PlaySet(h, Kept(h)[i])
         THEN {} ELSE {"play_count"})
 
-\* --- design model: every header over small corner domains ---------------
-CONSTANTS Roots, Semis, CentBytes, Rates, LoopTypes, Ats, Lens, Durs, MaxLoops
+CONSTANTS Roots, Semis, CentBytes, Rates, LoopTypes, Ats, Lens, Durs, MaxLoops, RPoints
 VARIABLE h
+
+\* --- Roland S-7xx: roland/s7xx/sample_file.py, one operator per loop mode -------------
+\* r = [mode, pts = <<start, sustain start, sustain end, release start, release end>>, key, rate]
+\* loop points are relative to the start point, never negative; the tool gives no play count (0) and no tuning
+Rel(r, k) == Max(0, r.pts[k] - r.pts[1])
+RLoop(t, a, b) == [type |-> t, start |-> a, end |-> b]
+RolandRegions(r) ==
+  CASE r.mode = 1 -> <<RLoop(0, Rel(r, 2), Rel(r, 3)), RLoop(0, Rel(r, 4), Rel(r, 5))>>       \* forward, release loop
+    [] r.mode = 2 -> <<>>                                                                     \* one shot
+    [] r.mode = 3 -> <<RLoop(0, Rel(r, 2), Rel(r, 3))>>                                       \* forward then one shot
+    [] r.mode = 4 -> <<RLoop(1, Rel(r, 2), Rel(r, 3))>>                                       \* alternating
+    [] r.mode = 5 -> <<>>                                                                     \* reverse one shot
+    [] r.mode = 6 -> <<RLoop(0, Max(0, r.pts[3] - r.pts[1]), Max(0, r.pts[3] - r.pts[2]))>>    \* reverse loop: mirrored in the reversed window
+    [] OTHER      -> <<RLoop(0, Rel(r, 2), Rel(r, 3))>>                                       \* forward to the sustain end (mode 0 and unknown modes)
+RolandChunk(r) == [period |-> Nearest(1000000000, r.rate), note |-> r.key, fhi |-> 0, flo |-> 0,
+                   loops |-> [i \in 1..Len(RolandRegions(r)) |-> [cue |-> i - 1, type |-> RolandRegions(r)[i].type,
+                                                                   start |-> RolandRegions(r)[i].start, end |-> RolandRegions(r)[i].end, frac |-> 0]]]
+FailedRoland(r, obs) ==
+  IF obs.refused THEN {"refused_without_cause"}
+  ELSE LET c == RolandChunk(r) IN
+       (IF obs.period = c.period THEN {} ELSE {"sample_period"})
+  \cup (IF obs.note = c.note THEN {} ELSE {"unity_note"})
+  \cup (IF obs.fhi = 0 /\ obs.flo = 0 THEN {} ELSE {"pitch_fraction"})
+  \cup (IF Len(obs.loops) = Len(c.loops) THEN {} ELSE {"loop_count"})
+  \cup (IF Len(obs.loops) = Len(c.loops)
+           /\ \A i \in 1..Len(c.loops) : /\ obs.loops[i].cue = c.loops[i].cue /\ obs.loops[i].type = c.loops[i].type /\ obs.loops[i].frac = 0
+                                         /\ obs.loops[i].start = c.loops[i].start /\ obs.loops[i].end = c.loops[i].end
+        THEN {} ELSE {"loop_points"})
+  \cup (IF \A i \in 1..Len(obs.loops) : obs.loops[i].cnt = 0 THEN {} ELSE {"play_count"})
+\* every loop of a Roland chunk lies inside the exported window when the stored points are ordered (start <= loop start <= loop end <= window end)
+RolandOrdered(r) == r.pts[1] <= r.pts[2] /\ r.pts[2] <= r.pts[3] /\ (r.mode = 1 => r.pts[3] <= r.pts[4] /\ r.pts[4] <= r.pts[5])
+RolandFrames(r) == (IF r.mode \in {1, 3} THEN r.pts[5] ELSE r.pts[3]) - r.pts[1] + 1
+RolandLoopsInsideWindow == \A m \in 0..7 : \A a, b, c, d, e \in RPoints :
+  LET r == [mode |-> m, pts |-> <<a, b, c, d, e>>, key |-> 60, rate |-> 44100] IN
+  (RolandOrdered(r) /\ (m = 3 => c <= e)) => \A i \in 1..Len(RolandRegions(r)) :
+       /\ RolandRegions(r)[i].end < RolandFrames(r) /\ RolandRegions(r)[i].start < RolandFrames(r)
+       \* as implemented, the reverse loop (mode 6) runs from the LAST frame of the reversed window (the mirror image of the
+       \* start point) to the mirror image of the sustain start, i.e. start >= end; the mirror image of [sustain start,
+       \* sustain end] would be [0, end].  Recorded as the code's behaviour; no listed property speaks about loop points in the WAV.
+       /\ (m # 6 => RolandRegions(r)[i].start <= RolandRegions(r)[i].end)
+       /\ (m = 6 => RolandRegions(r)[i].start = RolandFrames(r) - 1 /\ RolandRegions(r)[i].end <= RolandRegions(r)[i].start)
+
+\* --- design model: every header over small corner domains ---------------
 Loop == [at : Ats, co : Lens, dur : Durs]
 Headers == [root : Roots, semi : Semis, cb : CentBytes, rate : Rates, lt : LoopTypes,
             loops : UNION {[1..n -> Loop] : n \in 0..MaxLoops}]
@@ -119,5 +170,6 @@ ClausesBite == ~Refused(h) =>
                         /\ "loop_points" \in Failed(h, [o EXCEPT !.loops[1].start = @ + 1])
                         /\ "loop_points" \in Failed(h, [o EXCEPT !.loops[1].cue = @ + 1])
                         /\ "play_count" \in Failed(h, [o EXCEPT !.loops[1].cnt = @ + 2]))
+ASSUME RolandLoopsInsideWindow
 RefusalBites == Refused(h) => "built_although_a_field_overflows" \in Failed(h, [refused |-> FALSE])
 =============================================================================
